@@ -159,6 +159,21 @@ def tags_in(s):
     return set(TAG_RE.findall(s or ""))
 
 
+def return_default_equivalents(d):
+    """The default of a return entry is the returned EXPRESSION: its source text ('5', "'mnist'") and the value that
+    text denotes (5, 'mnist') are the same expression."""
+    c = canon_default(d)
+    acc = [c]
+    if c[0] == "str":
+        try:
+            v = ast.literal_eval(d)
+        except (ValueError, SyntaxError):
+            v = None
+        if isinstance(v, (int, float, bool, str)) and v is not None:
+            acc.append(canon_default(v))
+    return acc
+
+
 # --------------------------------------------------------------------------- tables
 class Table:
     """Expressibility table of a representation kind.  Default: everything must survive
@@ -183,7 +198,7 @@ class Table:
         return [p.get("doc")]
 
     def accept_return_default(self, p, pf):
-        return [canon_default(p.get("default", ABSENT))]
+        return return_default_equivalents(p.get("default", ABSENT))
 
     def accept_return_typ(self, p, pf):
         return [canon_typ(p.get("typ"))]
